@@ -41,6 +41,9 @@
 (*   "sharedidx" the stream convert closure uses the shared loop variable  *)
 (*   "donebeforeerr" a panicking worker goroutine calls wg.Done() before   *)
 (*               its recover handler has stored the error                  *)
+(*   "erriseof"  invokeByStream's concat ends on errors.Is(err, io.EOF)    *)
+(*   "cancelonreturn" per-call context cancelled when the run function     *)
+(*               returns                                                   *)
 (*   "dropempty" the stream convert function skips empty frames            *)
 (*   "concatinplace" the concatenation of message lists writes its result  *)
 (*               into the first frame instead of a fresh list              *)
@@ -187,7 +190,10 @@ Ret(i) ==
   /\ UNCHANGED <<sc, spawned, frames>>
 
 \* later steps of a streaming tool: its producer sends chunk k (the last one also closes), or the error item
-Item(i, k) == IF Beh(i) = "failmid" /\ k = 2 THEN "ERR" ELSE ChunkSeq(i)[k]
+\* "cancelonreturn": the per-call context is cancelled when the run function returns, so in the Stream form the producer of a
+\* streaming tool (it looks at its context between chunks) gives up with the context's error
+Item(i, k) == IF Beh(i) = "failmid" /\ k = 2 THEN "ERR"
+              ELSE IF Bug = "cancelonreturn" /\ sc.mode = "stream" THEN "ERR" ELSE ChunkSeq(i)[k]
 Send(i) ==
   /\ pc # "done" /\ Len(ts) = N /\ Form(i) = "s" /\ ts[i].step >= 1 /\ ts[i].step < NSteps(i)
   /\ sched' = Append(sched, i)
@@ -196,7 +202,8 @@ Send(i) ==
      IF sc.mode = "invoke"
      THEN \* invokeByStream inside the task: concat reads the item at once
           /\ Running
-          /\ ts' = IF Item(i, k) = "ERR" THEN [ts EXCEPT ![i].step = k + 1, ![i].done = TRUE, ![i].err = "err"]
+          \* "erriseof": concat takes an error item whose chain contains io.EOF for the end of the stream: the task ends with what it has
+          /\ ts' = IF Item(i, k) = "ERR" THEN [ts EXCEPT ![i].step = k + 1, ![i].done = TRUE, ![i].err = (IF Bug = "erriseof" THEN "" ELSE "err")]
                    ELSE [ts EXCEPT ![i].step = k + 1, ![i].output = @ \o Item(i, k), ![i].done = last]
      ELSE /\ pc = "consume" /\ (Eager => NoPending)
           /\ ts' = [ts EXCEPT ![i].step = k + 1, ![i].avail = Append(@, Item(i, k)), ![i].eof = last]
